@@ -197,6 +197,8 @@ class UndirectedWeightedGraph : private LabeledUndirectedGraph<EdgeWeight> {
                     ++j;
                 }
         }
+        for (VertexIndex i : *this)
+            edgeLabels.erase(orderedEdge(i, vertex));
     }
 
     /// @copydoc DirectedWeightedGraph::clearEdges
